@@ -48,6 +48,7 @@ pub fn sim_case(max_trace: usize, max_machines: usize, zero: bool, with_pps: boo
             pad_lines,
             line_style,
             repeat: 0,
+            base_ns: 0,
         })
         .boxed()
 }
@@ -98,16 +99,64 @@ pub fn sample_of(c: &SimCase) -> serde_json::Value {
 impl Prop for C15 {
     type Case = SimCase;
     const ID: &'static str = "C15";
-    const RULE: &'static str = "case = trace (1..=60 lines, bursts, both directions) x network delay x optional pps limit x 0..=3 machines on the client and 0..=3 on the server (light distributions from 0 us upwards; padding, blocking with all bypass/replace combinations, timers, cancels, counters, signals) x framework fractions x seed x continue-after flag, always with an iteration bound, unfiltered output. Non-trivial: the run contains >=1 padding packet and >=1 blocking period, or a replace that swapped a queued normal packet for the padding (PaddingSent without a padding TunnelSent). Distinct = hash of the case.";
+    const RULE: &'static str = "case = trace (1..=60 lines, bursts, both directions) x network delay x optional pps limit x 0..=3 machines on the client and 0..=3 on the server (light distributions from 0 us upwards; padding, blocking with all bypass/replace combinations, timers, cancels, counters, signals) x framework fractions x seed x continue-after flag, always with an iteration bound, unfiltered output; profile held_back: 840-3600 packets, one side blocked for 100-300 ms from its first packet (thousands of packets held back at the same time). Non-trivial: the run contains >=1 padding packet and >=1 blocking period, or a replace that swapped a queued normal packet for the padding (PaddingSent without a padding TunnelSent). Distinct = hash of the case.";
 
     fn profiles(tier: Tier) -> Vec<Profile> {
         match tier {
-            Tier::Quick => vec![prof("sim", 48_000)],
-            Tier::Thorough => vec![prof("sim", 500_000)],
+            Tier::Quick => vec![prof("sim", 48_000), prof("held_back", 48)],
+            Tier::Thorough => vec![prof("sim", 500_000), prof("held_back", 600)],
         }
     }
 
-    fn strategy(_profile: &str) -> BoxedStrategy<SimCase> {
+    fn strategy(profile: &str) -> BoxedStrategy<SimCase> {
+        if profile == "held_back" {
+            // thousands of packets of one side held back by one long blocking at the same time
+            return (30usize..60, 5_000u64..40_000, 28u32..60, 100_000.0f64..300_000.0, delay(), seed(), any::<bool>(), any::<bool>())
+                .prop_map(|(n, gap, repeat, block_us, delay_ns, seed, bypass, on_server)| {
+                    let mut trace: Vec<(u64, bool)> = (0..n as u64).map(|i| (i * gap, !on_server || i % 9 == 0)).collect();
+                    if on_server {
+                        // the server's packets are the trace's receives
+                        for (i, x) in trace.iter_mut().enumerate() {
+                            x.1 = i % 9 == 0;
+                        }
+                    }
+                    let d = |v: f64| DistSpec::constant(v);
+                    let blocker = MachineSpec {
+                        allowed_padding_packets: 0,
+                        max_padding_frac: Fx(0.0),
+                        allowed_blocked_microsec: u64::MAX,
+                        max_blocking_frac: Fx(0.0),
+                        states: vec![
+                            StateSpec { trans: vec![(3, vec![(1, Fs(1.0))])], ..StateSpec::default() },
+                            StateSpec {
+                                action: Some(ActionSpec::Block { bypass, replace: false, timeout: d(0.0), duration: d(block_us.round()), limit: None }),
+                                ..StateSpec::default()
+                            },
+                        ],
+                    };
+                    let (client, server) = if on_server { (vec![], vec![blocker]) } else { (vec![blocker], vec![]) };
+                    SimCase {
+                        trace,
+                        delay_ns,
+                        pps: None,
+                        client,
+                        server,
+                        fracs: [Fx(0.0); 4],
+                        seed,
+                        max_trace_length: 0,
+                        max_sim_iterations: 60_000,
+                        continue_after: false,
+                        only_client: false,
+                        only_network: false,
+                        hand_queue: false,
+                        pad_lines: vec![],
+                        line_style: 0,
+                        repeat,
+                        base_ns: 0,
+                    }
+                })
+                .boxed();
+        }
         sim_case(60, 3, true, true)
     }
 
@@ -170,7 +219,11 @@ impl Prop for C15 {
                 }
             }
         }
-        let share = [c.trace.iter().filter(|x| !x.1).count(), c.trace.iter().filter(|x| x.1).count()];
+        let eff = effective_trace(c);
+        let share = [eff.iter().filter(|x| !x.1).count(), eff.iter().filter(|x| x.1).count()];
+        if eff.len() > 1024 && blocking > 0 {
+            obs.hit("more_than_1024_packets_with_a_long_blocking");
+        }
         for side in 0..2 {
             let who = if side == 1 { "client" } else { "server" };
             if sends[side][0].len() > share[side] || normal_sent_events[side] > share[side] {
@@ -216,7 +269,7 @@ impl Prop for C15 {
     }
 
     fn required_classes() -> Vec<&'static str> {
-        vec!["ran_to_completion", "stopped_by_iteration_bound", "padding_packet", "blocking_period", "padding_replaced_by_queued_normal", "input_lines_in_scrambled_order"]
+        vec!["ran_to_completion", "stopped_by_iteration_bound", "padding_packet", "blocking_period", "padding_replaced_by_queued_normal", "input_lines_in_scrambled_order", "more_than_1024_packets_with_a_long_blocking"]
     }
 
     fn assumptions() -> Vec<&'static str> {
